@@ -288,6 +288,31 @@ func shutConfigs() []shutCfg {
 			})
 		}
 	})
+	add("stop-at-once+ticker/udp-reuseport", false, func(w *world) {
+		// a UDP listener forces SO_REUSEPORT mode (engine.runEventLoops, eventloop.run): the ticker
+		// goroutine of that mode must be joined by the shutdown too
+		w.opts = append(w.opts, WithTicker(true))
+		w.addr = fmt.Sprintf("udp://127.0.0.1:%d", udpPort())
+		w.script = func(w *world) {
+			sched.Go("ctl", func() {
+				w.waitBoot()
+				if err := w.stopEngine(); err != nil {
+					w.violate("stop:err", "Engine.Stop returned %v", err)
+				}
+			})
+		}
+	})
+	add("ticker-shutdown/udp-reuseport", false, func(w *world) {
+		w.opts = append(w.opts, WithTicker(true))
+		w.addr = fmt.Sprintf("udp://127.0.0.1:%d", udpPort())
+		w.onTick = func(w *world) (time.Duration, Action) {
+			if w.ticks >= 2 {
+				return time.Second, Shutdown
+			}
+			return time.Second, None
+		}
+		w.script = func(w *world) {}
+	})
 	add("two-conns/onclose-returns-shutdown", true, func(w *world) {
 		// every OnClose answers Shutdown: the shutdown sweep must still reach every connection
 		w.onClose = func(w *world, ci *connInfo, err error) Action { return Shutdown }
